@@ -1,11 +1,186 @@
 (* C19 — hex/number JSON types parse exactly or fail, and print canonically.
-   Statements only; proofs live in EthTypes/Proofs*.v. *)
-From Coq Require Import List NArith ZArith Lia Bool Arith.
+   Statements only; proofs live in EthTypes/Proofs.v (byte strings, addresses, EIP-55),
+   EthTypes/ProofsInt.v (integer print form, round trip, decimal and hex spellings) and
+   EthTypes/ProofsNum.v (JSON-number / exponent spellings, the combined exactness theorem).
+
+   External behaviour enters as parameters: [lex]/[lexs] = encoding/json (assumed only on quoted
+   plain ASCII and on texts of the JSON number grammar: [lex_law]/[lexs_law], validated against the
+   library on every correspondence run), [H] = Keccak-256 (only its output length is used). *)
+From Coq Require Import String List NArith ZArith Lia Bool Arith.
 From Coq Require Import Init.Byte.
-From FFS Require Import Base.Res Base.Bytes EthTypes.Model EthTypes.Spec EthTypes.Proofs.
+From FFS Require Import Base.Res Base.Bytes EthTypes.Model EthTypes.Spec EthTypes.Proofs EthTypes.ProofsInt EthTypes.ProofsNum.
 Import ListNotations.
 
-(* hex.DecodeString inverts hex.EncodeToString for every byte string *)
-Theorem C19_hex_decode_encode : forall b : bytes, hex_decode (hex_encode b) = Ok b.
-Proof. exact hex_decode_encode. Qed.
-Print Assumptions C19_hex_decode_encode.
+(* ---- 1. print form: "0x" + lower-case hex digits without leading zeros, value n (all n) ---- *)
+Theorem C19_hexint_print : forall n : N,
+  exists s, HexInteger_MarshalJSON (Z.of_N n) = dquote :: s ++ [dquote] /\ canonical_hex s n.
+Proof. exact HexInteger_print. Qed.
+Print Assumptions C19_hexint_print.
+
+Theorem C19_hexuint64_print : forall n : N,
+  exists s, HexUint64_MarshalJSON n = dquote :: s ++ [dquote] /\ canonical_hex s n.
+Proof. exact HexUint64_print. Qed.
+Print Assumptions C19_hexuint64_print.
+
+(* ---- 2. print/parse round trip, all n (all n < 2^64 for the 64-bit type) ---- *)
+Theorem C19_hexint_roundtrip : forall lex (n : N),
+  lex_law lex -> HexInteger_UnmarshalJSON lex (HexInteger_MarshalJSON (Z.of_N n)) = Ok (Z.of_N n).
+Proof. exact HexInteger_roundtrip. Qed.
+Print Assumptions C19_hexint_roundtrip.
+
+Theorem C19_hexuint64_roundtrip : forall lex (n : N),
+  lex_law lex -> (n < 2 ^ 64)%N -> HexUint64_UnmarshalJSON lex (HexUint64_MarshalJSON n) = Ok n.
+Proof. exact HexUint64_roundtrip. Qed.
+Print Assumptions C19_hexuint64_roundtrip.
+
+(* ---- 3. parse exactness.
+   [denotes t m e]: t is a spelling of m * 10^e in one of the classes of the quantifier (canonical
+   decimal, "-" + canonical decimal, "0x" + hex digits of any case, JSON number with optional fraction
+   and exponent); [sci_is m e q]: that value is the integer q.  [json_of t b]: the JSON document b is
+   t as a JSON string, or t itself when t is a JSON number.  [guard]: |e| <= 10^6 (the limit up to
+   which math/big expands a decimal exponent exactly) and the text is shorter than 2^28 characters.
+   ty64 = true is HexUint64 (0 <= q < 2^64), false is HexInteger (0 <= q).
+   The text is accepted with value q exactly when it denotes the in-range integer q; if it denotes no
+   integer, or one out of range, the result is an error - never a rounded or wrapped value. ---- *)
+Theorem C19_parse_exact : forall lex (ty64 : bool) (t : bytes) (m e : Z) (b : bytes),
+  lex_law lex -> denotes t m e -> guard t e -> json_of t b ->
+  (forall q, sci_is m e q -> in_range ty64 q = true -> parse_int ty64 lex b = Ok q) /\
+  ((forall q, sci_is m e q -> in_range ty64 q = false) -> exists err, parse_int ty64 lex b = Err err).
+Proof. exact parse_exact. Qed.
+Print Assumptions C19_parse_exact.
+
+(* the same for the text entry point (also used by the ABI input path): any sign, any size *)
+Theorem C19_big_integer_from_string_exact : forall (t : bytes) (m e : Z),
+  denotes t m e -> guard t e ->
+  (forall q, sci_is m e q -> BigIntegerFromString t = Ok q) /\
+  ((forall q, ~ sci_is m e q) -> exists err, BigIntegerFromString t = Err err).
+Proof.
+  intros t m e D G. rewrite (big_exact t m e D G). split.
+  - intros q Hq. apply sci_int_spec in Hq. rewrite Hq. reflexivity.
+  - intros Hn. apply sci_int_none in Hn. rewrite Hn. eauto.
+Qed.
+Print Assumptions C19_big_integer_from_string_exact.
+
+(* every well-formed JSON number text is recognised as a JSON number (so [json_of t t] is available
+   for the whole JSON-number class) *)
+Theorem C19_json_number_texts : forall j : jnum, jnum_wf j = true -> is_json_number (jnum_text j) = true.
+Proof. exact json_text_is_number. Qed.
+Print Assumptions C19_json_number_texts.
+
+(* ---- 4. parse totality: no input bytes and no lexer outcome make the integer types panic ---- *)
+Theorem C19_parse_total : forall (ty64 : bool) lex (b : bytes), parse_int ty64 lex b <> Panic.
+Proof. exact parse_total. Qed.
+Print Assumptions C19_parse_total.
+
+(* ---- 5. addresses: every 20-byte string, every casing, with or without "0x" ---- *)
+Theorem C19_address_parse : forall (s b : bytes),
+  hex_spells s b -> length b = 20%nat ->
+  Address_SetString s = Ok b /\ Address_SetString (t_0x ++ s) = Ok b.
+Proof. exact Address_SetString_accepts. Qed.
+Print Assumptions C19_address_parse.
+
+(* acceptance only of such texts: any other length, odd digit count or non-hex character is an error,
+   never a panic *)
+Theorem C19_address_reject : forall s : bytes,
+  Address_SetString s <> Panic /\
+  (forall b, Address_SetString s = Ok b ->
+     length b = 20%nat /\ (hex_spells s b \/ exists s', s = t_0x ++ s' /\ hex_spells s' b)).
+Proof. intros s. split; [apply Address_SetString_not_panic|apply Address_SetString_ok_inv]. Qed.
+Print Assumptions C19_address_reject.
+
+(* documented print forms, and the checksum form is EIP-55 and parses back *)
+Theorem C19_address_print : forall a : bytes,
+  Address0xHex_String a = t_0x ++ lower_hex a /\ AddressPlainHex_String a = lower_hex a /\ hex_spells (lower_hex a) a.
+Proof. intros a. split; [apply Address0xHex_String_form|]. split; [apply AddressPlainHex_String_form|apply lower_hex_spells]. Qed.
+Print Assumptions C19_address_print.
+
+Theorem C19_eip55 : forall (H : bytes -> bytes), (forall x, length (H x) = 32%nat) ->
+  forall a : bytes, length a = 20%nat ->
+    AddressWithChecksum_String H a = Ok (eip55 H a) /\ Address_SetString (eip55 H a) = Ok a.
+Proof. intros H HH a Ha. split; [apply checksum_is_eip55; assumption|apply eip55_parses_back; exact Ha]. Qed.
+Print Assumptions C19_eip55.
+
+(* ---- 6. byte strings: hex.DecodeString(TrimPrefix(s,"0x")) is Ok b exactly when s spells b ---- *)
+Theorem C19_hexbytes_parse : forall (s b : bytes),
+  (hex_spells s b -> hex_decode (trim0x s) = Ok b /\ hex_decode (trim0x (t_0x ++ s)) = Ok b) /\
+  (hex_decode (trim0x s) = Ok b -> hex_spells s b \/ exists s', s = t_0x ++ s' /\ hex_spells s' b) /\
+  hex_decode (trim0x s) <> Panic.
+Proof.
+  intros s b. split; [apply HexBytes_parse_accepts|]. split; [apply HexBytes_parse_ok_inv|apply hex_decode_not_panic].
+Qed.
+Print Assumptions C19_hexbytes_parse.
+
+Theorem C19_hexbytes_print : forall h : bytes,
+  HexBytes0xPrefix_String h = t_0x ++ lower_hex h /\ HexBytesPlain_String h = lower_hex h /\
+  hex_decode (trim0x (HexBytes0xPrefix_String h)) = Ok h /\ hex_decode (trim0x (HexBytesPlain_String h)) = Ok h.
+Proof.
+  intros h. split; [apply HexBytes0xPrefix_String_form|]. split; [apply HexBytesPlain_String_form|].
+  rewrite HexBytes0xPrefix_String_form, HexBytesPlain_String_form.
+  destruct (HexBytes_parse_accepts _ _ (lower_hex_spells h)) as [A B]. split; assumption.
+Qed.
+Print Assumptions C19_hexbytes_print.
+
+(* through the JSON layer: a quoted spelled text *)
+Theorem C19_json_string_layer : forall lexs (s b : bytes),
+  lexs_law lexs -> hex_spells s b ->
+  HexBytes_UnmarshalJSON lexs (quote s) = Ok b /\ HexBytes_UnmarshalJSON lexs (quote (t_0x ++ s)) = Ok b /\
+  (length b = 20%nat -> Address_UnmarshalJSON lexs (quote s) = Ok b /\ Address_UnmarshalJSON lexs (quote (t_0x ++ s)) = Ok b).
+Proof. exact json_string_layer. Qed.
+Print Assumptions C19_json_string_layer.
+
+(* ---- non-vacuity ---- *)
+Example C19_nonvacuous_print :
+  HexInteger_MarshalJSON 255 = quote (ascii_bytes "0xff"%string) /\
+  HexUint64_UnmarshalJSON simple_lexer (HexUint64_MarshalJSON 18446744073709551615) = Ok 18446744073709551615%N /\
+  lex_law simple_lexer.
+Proof. split; [vm_compute; reflexivity|]. split; [vm_compute; reflexivity|exact simple_lexer_law]. Qed.
+
+Example C19_nonvacuous_address :
+  let a := repeat xab 20 in
+  hex_spells (ascii_bytes "aBAbabABabababababababababababababababab"%string) a /\ length a = 20%nat /\
+  Address_SetString (ascii_bytes "0xaBAbabABabababababababababababababababab"%string) = Ok a.
+Proof.
+  cbv zeta. split; [|split; [reflexivity|vm_compute; reflexivity]].
+  vm_compute. repeat split; exists 10%N, 11%N; repeat split.
+Qed.
+
+(* 2^64 written as 1.8446744073709551616e19: exact for HexInteger, an error (not a wrapped 0) for HexUint64;
+   a 1 eighty-one places after the point (the D19a witness) denotes no integer and is an error *)
+Example C19_nonvacuous_exponent :
+  let j := mkJ false (ascii_bytes "1"%string) (Some (ascii_bytes "8446744073709551616"%string)) (Some (false, 0%N, ascii_bytes "19"%string)) in
+  let t := jnum_text j in
+  t = ascii_bytes "1.8446744073709551616e19"%string /\
+  denotes t (j_mant j) (j_e j) /\ guard t (j_e j) /\ json_of t t /\ sci_is (j_mant j) (j_e j) (2 ^ 64) /\
+  parse_int false simple_lexer t = Ok (2 ^ 64)%Z /\ (exists err, parse_int true simple_lexer t = Err err).
+Proof.
+  cbv zeta.
+  set (j := mkJ false (ascii_bytes "1"%string) (Some (ascii_bytes "8446744073709551616"%string)) (Some (false, 0%N, ascii_bytes "19"%string))).
+  assert (W : jnum_wf j = true) by (vm_compute; reflexivity).
+  assert (D : denotes (jnum_text j) (j_mant j) (j_e j)) by (apply den_json; exact W).
+  assert (G : guard (jnum_text j) (j_e j)) by (split; vm_compute; congruence).
+  assert (J : json_of (jnum_text j) (jnum_text j)) by (right; split; [reflexivity|apply json_text_is_number; exact W]).
+  assert (S : sci_is (j_mant j) (j_e j) (2 ^ 64)) by (apply sci_int_spec; vm_compute; reflexivity).
+  split; [vm_compute; reflexivity|]. repeat (split; [assumption|]).
+  destruct (C19_parse_exact simple_lexer false _ _ _ _ simple_lexer_law D G J) as [A _].
+  destruct (C19_parse_exact simple_lexer true _ _ _ _ simple_lexer_law D G J) as [_ B].
+  split; [apply A; [exact S|reflexivity]|].
+  apply B. intros q Hq. apply sci_int_spec in Hq. apply sci_int_spec in S. rewrite S in Hq. injection Hq as <-. reflexivity.
+Qed.
+
+Example C19_nonvacuous_fraction :
+  let j := mkJ false (ascii_bytes "1"%string) (Some (repeat x30 80 ++ [x31])) None in
+  denotes (jnum_text j) (j_mant j) (j_e j) /\ guard (jnum_text j) (j_e j) /\ (forall q, ~ sci_is (j_mant j) (j_e j) q) /\
+  exists err, BigIntegerFromString (jnum_text j) = Err err.
+Proof.
+  cbv zeta. set (j := mkJ false (ascii_bytes "1"%string) (Some (repeat x30 80 ++ [x31])) None).
+  assert (W : jnum_wf j = true) by (vm_compute; reflexivity).
+  assert (D : denotes (jnum_text j) (j_mant j) (j_e j)) by (apply den_json; exact W).
+  assert (G : guard (jnum_text j) (j_e j)) by (split; vm_compute; congruence).
+  assert (N : forall q, ~ sci_is (j_mant j) (j_e j) q) by (apply sci_int_none; vm_compute; reflexivity).
+  repeat (split; [assumption|]).
+  apply (proj2 (C19_big_integer_from_string_exact _ _ _ D G) N).
+Qed.
+
+Example C19_nonvacuous_eip55 :
+  AddressWithChecksum_String (fun _ => repeat xf0 32) (repeat xab 20) = Ok (ascii_bytes "0xAbAbAbAbAbAbAbAbAbAbAbAbAbAbAbAbAbAbAbAb"%string).
+Proof. vm_compute. reflexivity. Qed.
